@@ -35,7 +35,8 @@ def innermost_h2(exc):
 class Obs:
     """Observation of one step on a connection."""
     __slots__ = ("kind", "exc", "exc_name", "code", "is_h2", "is_proto",
-                 "where", "frames", "raw", "events", "ret", "wire_error", "msg")
+                 "where", "frames", "raw", "events", "ret", "wire_error", "msg",
+                 "blocks")
 
     def __init__(self):
         self.kind = "ok"
@@ -51,6 +52,7 @@ class Obs:
         self.ret = None
         self.wire_error = None
         self.msg = None
+        self.blocks = []
 
     def frame_names(self):
         return [f.name for f in self.frames]
@@ -136,7 +138,7 @@ class Peer:
     def __init__(self):
         self.enc = hpack.Encoder()
         self.dec = hpack.Decoder()
-        self.dec.max_header_list_size = 0  # unlimited for the checker
+        self.dec.max_header_list_size = 2 ** 31  # effectively unlimited
 
     def encode(self, headers, huffman=False):
         return self.enc.encode(headers, huffman=huffman)
@@ -193,3 +195,165 @@ def event_brief(e):
         else:
             d[k] = v
     return (type(e).__name__, d)
+
+
+# ------------------------------------------------------------ solo harness
+
+from .models.streams import ConnM  # noqa: E402
+
+
+def is_info_block(headers):
+    for n, v in headers:
+        if n in (b":status", ":status"):
+            return (v[:1] in (b"1", "1"))
+    return False
+
+
+class Solo:
+    """One real connection + scripted peer + the stream-lifecycle tracker.
+
+    The tracker (``self.m``) is advanced only by what is *observed*: frames
+    the library really emitted, and peer frames it accepted without a stream
+    or connection error.
+    """
+
+    def __init__(self, client, handshake=True, peer_settings=(), **cfg):
+        self.client = client
+        self.conn = new_conn(client, **cfg)
+        self.m = ConnM(client)
+        self.wdec = hpack.Decoder()        # follows the library's encoder
+        self.wdec.max_header_list_size = 2 ** 31
+        self.wdec_broken = False
+        self.need_preface = not client
+        if handshake:
+            if client:
+                handshake_client(self.conn, peer_settings)
+            else:
+                handshake_server(self.conn, peer_settings)
+                self.need_preface = False
+
+    # -- local call ------------------------------------------------------
+    def api(self, method, *args, **kw):
+        o = call(self.conn, method, *args, **kw)
+        self.absorb_output(o)
+        return o
+
+    def absorb_output(self, o):
+        """Advance the tracker from frames seen on the wire; returns the list
+        of decoded header blocks [(first_frame, headers)]."""
+        blocks = []
+        try:
+            items = wire.header_blocks(o.frames)
+        except wire.WireError as e:
+            o.wire_error = o.wire_error or str(e)
+            items = [("frame", f) for f in o.frames
+                     if f.type not in (wire.HEADERS, wire.PUSH_PROMISE, wire.CONTINUATION)]
+        for it in items:
+            if it[0] == "block":
+                _, first, block, frs = it
+                hdrs = None
+                if not self.wdec_broken:
+                    try:
+                        hdrs = [(bytes(h[0]), bytes(h[1]), not getattr(h, "indexable", True))
+                                for h in self.wdec.decode(block, raw=True)]
+                    except Exception as e:  # noqa: BLE001
+                        self.wdec_broken = True
+                        o.wire_error = o.wire_error or ("peer cannot decode header block: %r" % (e,))
+                blocks.append((first, hdrs))
+                if first.type == wire.HEADERS:
+                    info = bool(hdrs) and is_info_block([(n, v) for n, v, _ in hdrs])
+                    self.m.sent_headers(first.sid, first.f["es"], info)
+                else:
+                    self.m.sent_push(first.sid, first.f["promised"])
+            else:
+                f = it[1]
+                if f.type == wire.DATA:
+                    self.m.sent_data(f.sid, f.f["es"])
+                elif f.type == wire.RST_STREAM:
+                    self.m.sent_rst(f.sid)
+                elif f.type == wire.GOAWAY:
+                    self.m.closed = True
+        o.blocks = blocks
+        return blocks
+
+    # -- peer frame(s) ---------------------------------------------------
+    def rx(self, frames, meta=None):
+        """Deliver one logical peer input (a frame, or a header block as
+        HEADERS+CONTINUATIONs).  ``meta`` describes it for the tracker:
+        ('headers', sid, es, info) | ('data', sid, es) | ('rst', sid) |
+        ('push', parent, promised) | None."""
+        pre = b""
+        if self.need_preface:
+            pre = wire.PREFACE
+            self.need_preface = False
+        o = recv(self.conn, pre + wire.ser(frames))
+        if o.kind == "raise":
+            self.m.closed = True
+        rst_sids = set(f.sid for f in o.frames if f.type == wire.RST_STREAM)
+        if o.kind == "ok" and meta is not None:
+            kind = meta[0]
+            if kind == "headers" and meta[1] not in rst_sids:
+                self.m.recv_headers(meta[1], meta[2], meta[3])
+            elif kind == "data" and meta[1] not in rst_sids:
+                self.m.recv_data(meta[1], meta[2])
+            elif kind == "rst":
+                self.m.recv_rst(meta[1])
+            elif kind == "push" and meta[2] not in rst_sids and meta[1] not in rst_sids:
+                self.m.recv_push(meta[1], meta[2])
+            elif kind == "goaway":
+                self.m.closed = True
+        self.absorb_output(o)
+        return o
+
+    def cleanup(self):
+        """The public way to make the library forget closed streams."""
+        a = self.conn.open_outbound_streams
+        b = self.conn.open_inbound_streams
+        self.m.cleanup()
+        return a, b
+
+
+# ------------------------------------------------------------ sized header lists
+
+_SIZED_CACHE = {}
+
+
+def sized_headers(base, target, never_indexed=True):
+    """A header list extending ``base`` whose HPACK encoding (fresh encoder,
+    library defaults, i.e. Huffman on) is exactly ``target`` bytes long.
+    Uses 'X'/'Z' padding characters, whose Huffman codes are 8 bits."""
+    key = (tuple(base), target, never_indexed)
+    if key in _SIZED_CACHE:
+        return _SIZED_CACHE[key]
+    wrap = ni if never_indexed else (lambda x: list(x))
+
+    def enc_len(hs):
+        return len(hpack.Encoder().encode(wrap(hs)))
+
+    b0 = enc_len(list(base))
+    if target < b0 + 8:
+        raise ValueError("target %d too small (base %d)" % (target, b0))
+    res = None
+    guess = target - b0 - 8
+    for n in range(max(0, guess - 8), guess + 12):
+        hs = list(base) + [(b"x-pad", b"X" * n)]
+        ln = enc_len(hs)
+        if ln == target:
+            res = hs
+            break
+        if ln > target:
+            break
+    if res is None:
+        for n in range(max(0, guess - 40), guess + 4):
+            for m in range(0, 24):
+                hs = list(base) + [(b"x-pad", b"X" * n), (b"x-pad", b"Z" * m)]
+                if enc_len(hs) == target:
+                    res = hs
+                    break
+            if res:
+                break
+    if res is None:
+        raise ValueError("cannot hit encoded size %d" % target)
+    res = wrap(res)
+    _SIZED_CACHE[key] = res
+    return res
